@@ -11,6 +11,12 @@
    sent has been taken, i.e. all [inb] are empty.  (A worker that has sent its result does
    nothing until the root answers in either mode, so the worker side needs no extra premise.)
 
+   Root fallback [fb]: the repaired _mpi_iter_unordered (commit cd002ec) lets the root, after
+   _mpi_root_task has returned, run every task that is still pending itself, in order
+   (`yield from map(wrapped_func, iterable)`), and only then enter the barrier.  [fb = true] is
+   that algorithm; [fb = false] is the pinned one ("_cur" variant: the root goes to the barrier
+   with whatever is still pending), kept as documentation of finding F13a.
+
    No proofs in this file. *)
 From Verif Require Import Prelude.
 From Coq Require Import Permutation.
@@ -21,7 +27,7 @@ Inductive rpc := RInit (k active : nat) | RLoop (active : nat) | RBar | RDone.
 Inductive mode := Eager | Sync.
 Inductive choice :=
 | CInitTask (k : nat) | CInitEoq (k : nat) | CInitDone
-| CRecvMore (i : nat) | CRecvLast (i : nat) | CExit
+| CRecvMore (i : nat) | CRecvLast (i : nat) | CFallback | CExit
 | CWTask (i : nat) | CWEoq (i : nat) | CBar.
 
 Definition upd {A} (i : nat) (x : A) (l : list A) : list A := firstn i l ++ x :: skipn (S i) l.
@@ -31,6 +37,7 @@ Section Dispatch.
   Context {T R : Type}.
   Context (f : T -> R).
   Context (allowed : nat -> bool).
+  Context (fb : bool).
 
   Inductive msg := Task (t : T) | EOQ.
   Record worker := mkW { inb : list msg; outb : list R; fin : bool }.
@@ -62,8 +69,11 @@ Section Dispatch.
       step m (mkS (RLoop (S a)) [] ws g r)
              (mkS (RLoop a) [] (upd i (mkW (inb w ++ [EOQ]) xs (fin w)) ws) (g ++ [x]) r)
   | s_exit p ws g r :
-      root_ok m ws = true ->
+      root_ok m ws = true -> (fb = true -> p = []) ->
       step m (mkS (RLoop 0) p ws g r) (mkS RBar p ws g r)
+  | s_fallback t p ws g r :
+      fb = true -> root_ok m ws = true ->
+      step m (mkS (RLoop 0) (t :: p) ws g r) (mkS (RLoop 0) p ws (g ++ [f t]) (r ++ [t]))
   | s_wtask i c p ws g r w t ms :
       nth_error ws i = Some w -> fin w = false -> inb w = Task t :: ms ->
       step m (mkS c p ws g r) (mkS c p (upd i (mkW ms (outb w ++ [f t]) false) ws) g (r ++ [t]))
@@ -148,8 +158,15 @@ Section Dispatch.
         end
     | CExit =>
         match pc s with
-        | RLoop 0 => if root_ok m l then Some (mkS RBar (pend s) l (got s) (ran s)) else None
+        | RLoop 0 => if root_ok m l && (negb fb || is_nil (pend s))
+                     then Some (mkS RBar (pend s) l (got s) (ran s)) else None
         | _ => None
+        end
+    | CFallback =>
+        match pc s, pend s with
+        | RLoop 0, t :: p => if fb && root_ok m l
+                             then Some (mkS (RLoop 0) p l (got s ++ [f t]) (ran s ++ [t])) else None
+        | _, _ => None
         end
     | CWTask i =>
         match nth_error l i with
@@ -200,7 +217,9 @@ Arguments EOQ {T}.
    the real iter_unordered); [ranks] is the set `ranks` of iter_unordered (computed by the
    harness from max_workers / rank0_node_only, independently of the run): worker index i is
    allowed iff rank i+1 is in it;
-   [cs] is the communication log of the real run translated event by event into choices;
+   [fb] selects the algorithm (true = with root fallback, the repaired tree);
+   [cs] is the communication log of the real run translated event by event into choices
+   (one CFallback per task the job function ran on the root rank);
    impl_got = what the root rank's iterator yielded, in order; impl_ran = the tasks the
    job function was called with on the worker ranks. *)
 Fixpoint ninsert (x : nat) (l : list nat) : list nat :=
@@ -211,12 +230,12 @@ Definition c06_f (t : nat) : nat := 3 * t + 1.
 Definition c06_allowed (ranks : list nat) (i : nat) : bool := existsb (Nat.eqb (S i)) ranks.
 Definition is_done (c : rpc) : bool := match c with RDone => true | _ => false end.
 
-Definition c06_dispatch_case (sync : bool) (nworkers : nat) (ranks : list nat) (tasks : list nat)
+Definition c06_dispatch_case (fb sync : bool) (nworkers : nat) (ranks : list nat) (tasks : list nat)
            (cs : list choice) (impl_got impl_ran : list nat) : nat :=
   let m := if sync then Sync else Eager in
   let al := c06_allowed ranks in
   let s0 := init (R := nat) tasks nworkers in
-  let r := run c06_f al m cs s0 in
+  let r := run c06_f al fb m cs s0 in
   code [ (* flag0: every logged event is enabled in the model, the model ends in RDone, yields
                    exactly what the implementation's root yielded (same order) and ran the same tasks *)
          match r with
@@ -228,4 +247,4 @@ Definition c06_dispatch_case (sync : bool) (nworkers : nat) (ranks : list nat) (
          (* flag2: every task was executed exactly once *)
          nlist_eqb (nsort impl_ran) (nsort tasks) ]
   (* bits 4.. : 1 + index of the first event that is not enabled (0 when all are) *)
-  + 16 * match r with Some _ => 0 | None => S (first_disabled c06_f al m cs s0) end.
+  + 16 * match r with Some _ => 0 | None => S (first_disabled c06_f al fb m cs s0) end.
